@@ -90,9 +90,11 @@ impl FileConfig {
 
         for (key, value) in cfg[0].as_hash().unwrap() {
             match key.as_str().unwrap() {
-                "port" => config.port = value.as_i64().unwrap() as u16,
+                "port" => config.port = Self::int_in_range(key.as_str().unwrap(), value.as_i64().unwrap())?,
                 "interface" => config.interface = value.as_str().unwrap().to_string(),
-                "batch_size" => config.batch_size = value.as_i64().unwrap() as u8,
+                "batch_size" => {
+                    config.batch_size = Self::int_in_range(key.as_str().unwrap(), value.as_i64().unwrap())?
+                }
                 "seed" => {
                     let val = value.as_str().unwrap().to_string();
                     config.seed = HEX
@@ -101,7 +103,7 @@ impl FileConfig {
                 }
                 "status_interval" => {
                     let val = value.as_i64().expect("status_interval value invalid");
-                    config.status_interval = Duration::from_secs(val as u64)
+                    config.status_interval = Duration::from_secs(Self::int_in_range("status_interval", val)?)
                 }
                 "kms_protection" => {
                     let val =
@@ -111,7 +113,7 @@ impl FileConfig {
                     config.kms_protection = val
                 }
                 "health_check_port" => {
-                    let val = value.as_i64().unwrap() as u16;
+                    let val = Self::int_in_range("health_check_port", value.as_i64().unwrap())?;
                     config.health_check_port = Some(val);
                 }
                 "client_stats" => {
@@ -123,11 +125,11 @@ impl FileConfig {
                     config.persist_dir = val;
                 }
                 "fault_percentage" => {
-                    let val = value.as_i64().unwrap() as u8;
+                    let val = Self::int_in_range("fault_percentage", value.as_i64().unwrap())?;
                     config.fault_percentage = val;
                 }
                 "num_workers" => {
-                    let val = value.as_i64().unwrap() as usize;
+                    let val = Self::int_in_range("num_workers", value.as_i64().unwrap())?;
                     config.num_workers = val;
                 }
                 unknown => {
@@ -140,6 +142,14 @@ impl FileConfig {
         }
 
         Ok(config)
+    }
+
+    /// Convert a YAML integer to the setting's own type, refusing (instead of silently wrapping)
+    /// values the type cannot represent.
+    fn int_in_range<T: TryFrom<i64>>(key: &str, val: i64) -> Result<T, Error> {
+        T::try_from(val).map_err(|_| {
+            Error::InvalidConfiguration(format!("value {} is out of range for '{}'", val, key))
+        })
     }
 }
 
